@@ -36,7 +36,7 @@ RULE = (
     "'everything happened'); distinct = distinct (workload digest, fault plan, post-state digest)."
 )
 TIERS = {
-    "quick": {"runs": 16, "budget_s": 45, "min_runs": 4, "run_timeout_s": 240},
+    "quick": {"runs": 20, "budget_s": 60, "min_runs": 4, "run_timeout_s": 240},
     "thorough": {"runs": 640, "budget_s": 780, "min_runs": 40, "run_timeout_s": 600},
 }
 COMPONENTS_REAL = [
